@@ -49,16 +49,18 @@ AckedAt(r, c, lenient) ==
 Callers(r) == 1..Len(r.calls)
 NFilters(r, c) == IF r.calls[c].n < 1 THEN 1 ELSE r.calls[c].n
 
+\* (calls the application issued with a deadline -- calls[c].abandon -- may of course return early with that
+\* error; whether they return at all is C11's business)
 \* a successful return only after the acknowledgement of the right kind with the caller's own identifier
 OnlyOnOwnAck(r) == \A c \in Callers(r) :
   LET rp == RPos(r, c) IN
   (rp # 0 /\ r.evs[rp].res = "ok") => (AckedAt(r, c, TRUE) # 0 /\ AckedAt(r, c, TRUE) < rp)
 \* no call returns at all (successfully or not) before the run ends unless its own acknowledgement came:
 \* foreign / unsolicited acknowledgements do not disturb it
-NotDisturbed(r) == \A c \in Callers(r) :
+NotDisturbed(r) == \A c \in {x \in Callers(r) : ~r.calls[x].abandon} :
   LET rp == RPos(r, c) IN (rp # 0 /\ rp < EndPos(r)) => (AckedAt(r, c, TRUE) # 0 /\ AckedAt(r, c, TRUE) < rp)
 \* its own acknowledgement completes the call, whatever else was sent
-OwnAckCompletes(r) == \A c \in Callers(r) :
+OwnAckCompletes(r) == \A c \in {x \in Callers(r) : ~r.calls[x].abandon} :
   (AckedAt(r, c, FALSE) # 0 /\ AckedAt(r, c, FALSE) < EndPos(r)) => (RPos(r, c) # 0 /\ RPos(r, c) < QPos(r))
 \* Subscribe: granted QoS per filter in request order; ErrInvalidSubAck iff the count differs
 SubResult(r) == \A c \in Callers(r) :
